@@ -71,3 +71,26 @@ Definition site_ok (moves_code : bool) (r : recv) : bool :=
   | RSchedulerStream => negb moves_code   (* the scheduler's own stream may only be used by the scheduler *)
   | _ => false
   end.
+
+(* ------------------------------------------------------------------ persistence (C06) *)
+
+(* what write_toml stores of the scheduler's generator: the bit-generator state (opaque
+   here: a number), and the spawn counter ONLY when it differs from cstep + #locked
+   (fix: rng_children); the seed is part of the configuration *)
+Record rng_full := mkRF { rf_entropy : nat; rf_nchild : nat; rf_bits : nat }.
+
+Record rng_disk := mkRD { rd_seed : nat; rd_cstep : nat; rd_nlocked : nat;
+                          rd_children : option nat; rd_bits : nat }.
+
+Definition rng_persist (sd cstep nlocked : nat) (g : rng_full) : rng_disk :=
+  mkRD sd cstep nlocked
+       (if rf_nchild g =? cstep + nlocked then None else Some (rf_nchild g))
+       (rf_bits g).
+
+(* set_rgen.  [fixed = false]: the original code (entropy 0, counter = cstep) *)
+Definition rng_recover (fixed : bool) (d : rng_disk) : rng_full :=
+  if fixed then
+    mkRF (rd_seed d)
+         (match rd_children d with Some n => n | None => rd_cstep d + rd_nlocked d end)
+         (rd_bits d)
+  else mkRF 0 (rd_cstep d) (rd_bits d).
